@@ -1,12 +1,14 @@
 /- C11 driver: one case line (rule set, flags, buffer, callback scripts) -> the model's ordered
    message trace + return code per scan (same format as harness/h_cb.c).
 
-   line:   <id> f=<0..3> api=<s|r|d> buf=<hex> items=<item>;<item>;… scripts=<script>/<script>…
+   line:   <id> f=<0..3> x=<n> api=<s|r|d> buf=<hex>[/<hex>…] items=<item>;<item>;… scripts=<script>/<script>…
    item:   i:<ns>:<module>                      import statement in namespace <ns>
            r:<ns>:<n|g|p|gp>:<cond>             rule number j (j = count of earlier rule items), named r<j>
    cond:   atom (('&' | '|') atom)*             left-associative, the harness parenthesises the same way
    atom:   T | F | z<N> (filesize > N) | s<hex> ($s) | n<hex> (not $s) | r<j> (rule j) | x<j> (not rule j)
+   buf:    scan number k (k-th script) reads buffer number k mod #buffers
    script: word over c/a/e ("-" = empty): answer to the k-th message, CONTINUE afterwards
+   x:      other scan flags the harness passes along (FAST_MODE, NO_TRYCATCH); no effect on the protocol
    f:      bit0 = REPORT_RULES_MATCHING, bit1 = REPORT_RULES_NOT_MATCHING (api=d: set_flags never called)
    output: <id> <msg> … rc=<code> [| <msg> … rc=<code>]      msg: IMP:<m> MOD:<m> M:<ns>.<rule> N:<ns>.<rule> FIN -/
 import YaraModel.Model.Callback
@@ -101,12 +103,16 @@ def handle (line : String) : String :=
     let res : Option String := do
       let f ← (← kv rest "f").toNat?
       let api ← kv rest "api"
-      let buf ← Driver.unhex (← kv rest "buf")
+      let bufs ← ((← kv rest "buf").splitOn "/").mapM Driver.unhex
       let its := ((← kv rest "items").splitOn ";").filter (· ≠ "")
-      let p ← parseItems buf its ⟨[], []⟩
+      -- scan number k reads buffer number k mod #buffers; atoms are decided per buffer
+      let progs ← bufs.mapM fun b => parseItems b its ⟨[], []⟩
       let scripts ← ((← kv rest "scripts").splitOn "/").mapM parseScript
       let fl := if api == "d" then defaultFlags else setFlags (f % 2 == 1) (f / 2 % 2 == 1)
-      pure (" | ".intercalate (scripts.map fun s => showScan p.rules (scan p.rules p.imports fl s)))
+      let outs ← scripts.zipIdx.mapM fun (s, k) => do
+        let p ← progs[k % progs.length]?
+        pure (showScan p.rules (scan p.rules p.imports fl s))
+      pure (" | ".intercalate outs)
     id ++ " " ++ res.getD "BADCASE"
 
 end Driver.Cb
